@@ -105,7 +105,20 @@ func refMuxPES(r *Rng, pid uint16, sid byte, n int, unbounded bool) *refUnit {
 	hdr := &bw{}
 	hdr.put(2, 2)
 	hdr.put(6, uint64(r.Intn(64))&0x37) // scrambling(2) priority alignment copyright original
-	if r.Chance(1, 5) {
+	if r.Chance(1, 8) {
+		// PTS and DSM trick mode (one byte the parser decodes into a struct of its own)
+		u.PTS = int64(r.Bits(33))
+		hdr.put(8, 0x88)
+		hdr.put(8, 5+1)
+		hdr.put(4, 2)
+		hdr.put(3, uint64(u.PTS>>30))
+		hdr.put(1, 1)
+		hdr.put(15, uint64(u.PTS>>15))
+		hdr.put(1, 1)
+		hdr.put(15, uint64(u.PTS))
+		hdr.put(1, 1)
+		hdr.put(8, uint64(r.Intn(256)))
+	} else if r.Chance(1, 5) {
 		// PTS and a PES extension carrying extension field 2 (bytes the parser hands out as they are)
 		u.PTS = int64(r.Bits(33))
 		n := r.Range(1, 12)
@@ -316,6 +329,8 @@ type streamOpts struct {
 	Repeats     int   // how many times PAT/PMT are repeated
 	NearPIDs    bool  // PES PIDs that differ in one bit from each other (and 0x0fff next to null packets)
 	PESTotals   []int // first PES PID: bounded units with exactly these PES_packet_length values instead of random ones
+	DVBPMTPID   bool  // the PMT PID is one of the PIDs DVB reserves for SI (0x10..0x14, 0x1e, 0x1f): legal in MPEG
+	TwoPMTPIDs  bool  // the PAT has two sections naming two different PMT PIDs; a PMT unit on each
 	TypedDescs  bool  // PMT streams carry loops of typed DVB descriptors (reference-encoded, go/harness/c14_ref.go)
 	Unbounded   bool  // with PESTotals: unbounded video PES (PES_packet_length 0) with these payload sizes instead
 	LongUnit    int   // first PES PID: its first unit is an unbounded PES spread over at least this many packets
@@ -367,7 +382,15 @@ func genRefStream(r *Rng, o streamOpts) *refStreamModel {
 		if r.Bool() {
 			pmtPID = uint16(0x20 + r.Intn(0x40))
 		}
+		if o.DVBPMTPID {
+			pmtPID = []uint16{0x10, 0x11, 0x12, 0x13, 0x14, 0x1e, 0x1f}[r.Intn(7)]
+		}
 		m.PMTPIDs = []uint16{pmtPID}
+		pmtPID2 := uint16(0)
+		if o.TwoPMTPIDs {
+			pmtPID2 = uint16(0x70 + r.Intn(0x40))
+			m.PMTPIDs = append(m.PMTPIDs, pmtPID2)
+		}
 		for rep := 0; rep < 1+o.Repeats; rep++ {
 			pat := &refSection{TableID: 0, Ext: uint16(r.Bits(16)), Version: byte(r.Intn(32)),
 				Programs: []refProgram{{Number: uint16(1 + r.Intn(100)), PID: pmtPID}}}
@@ -375,10 +398,20 @@ func genRefStream(r *Rng, o streamOpts) *refStreamModel {
 				pat.Programs = append([]refProgram{{Number: 0, PID: 0x10}}, pat.Programs...)
 			}
 			secs := []*refSection{pat}
-			if r.Chance(1, 4) {
+			if pmtPID2 != 0 {
+				secs = append(secs, &refSection{TableID: 0, Ext: pat.Ext, Version: pat.Version, Programs: []refProgram{{Number: uint16(300 + r.Intn(100)), PID: pmtPID2}}})
+			} else if r.Chance(1, 4) {
 				secs = append(secs, &refSection{TableID: 0, Ext: pat.Ext, Version: pat.Version, Programs: []refProgram{{Number: uint16(200 + r.Intn(100)), PID: pmtPID}}})
 			}
 			addUnit(refPSI(r, 0, secs))
+			if pmtPID2 != 0 {
+				pmt2 := &refSection{TableID: 2, Ext: secs[1].Programs[0].Number, Version: byte(r.Intn(32))}
+				if len(pesPIDs) > 0 {
+					pmt2.PCRPID = pesPIDs[len(pesPIDs)-1]
+					pmt2.Streams = []refStream{{Type: 0x0f, PID: pesPIDs[len(pesPIDs)-1]}}
+				}
+				addUnit(refPSI(r, pmtPID2, []*refSection{pmt2}))
+			}
 			pmt := &refSection{TableID: 2, Ext: pat.Programs[len(pat.Programs)-1].Number, Version: byte(r.Intn(32))}
 			for _, pid := range pesPIDs {
 				st := refStream{Type: []byte{0x1b, 0x0f, 0x03, 0x06, 0x81}[r.Intn(5)], PID: pid}
